@@ -167,7 +167,8 @@ func (h *histRun) buildNamed(name string, i int, op *opSpec, pc procCfg, hook fu
 	if op.DryNil {
 		bo.DryThenNil = 1 + op.N%2
 	}
-	bo.GCAfter = op.GCAfter
+	bo.GCAfter, bo.SecondPlain = op.GCAfter, op.SecondPlain
+	h.w.failLate = op.FailLate
 	if op.Twice && op.Between != nil {
 		between := *op.Between
 		bo.Between = func() {
